@@ -289,6 +289,17 @@ def _tail_convert(stmts, make_result):
         if isinstance(s, ast.Raise):
             out.append(s)
             return out, True
+        if isinstance(s, ast.Try) and _contains(s, ast.Return) and i == len(stmts) - 1 and not s.finalbody:
+            # a try statement in tail position: its returns become results, control continues after the call site
+            b, bt = _tail_convert(s.body, make_result)
+            oe, ot = _tail_convert(s.orelse, make_result) if s.orelse else ([], bt)
+            hs, all_t = [], True
+            for h in s.handlers:
+                hb, ht = _tail_convert(h.body, make_result)
+                all_t = all_t and ht
+                hs.append(ast.copy_location(ast.ExceptHandler(type=h.type, name=h.name, body=hb or [ast.Pass()]), h))
+            out.append(ast.copy_location(ast.Try(body=b or [ast.Pass()], handlers=hs, orelse=oe, finalbody=[]), s))
+            return out, (bt if not s.orelse else ot) and all_t
         if _contains(s, ast.Return):
             raise NotInlineable('return inside a loop / try / with')
         out.append(s)
@@ -420,6 +431,9 @@ class _Inliner:
         return None, False
 
     def run_function(self, fnode, cls, chain):
+        params, order = local_names(fnode)
+        self._orig_locals = getattr(fnode, '_orig_locals', None) or (set(params) | set(order))
+        fnode._orig_locals = self._orig_locals
         changed = True
         rounds = 0
         while changed and rounds < 8:
@@ -470,9 +484,8 @@ class _Inliner:
         g, is_method = self.resolve(call, fnode, cls, chain)
         if g is None or g is fnode or g in chain:
             return None
-        params, order = local_names(fnode)
         try:
-            return splice(g, call, kind, target, set(params) | set(order), is_method)
+            return splice(g, call, kind, target, set(self._orig_locals), is_method)
         except NotInlineable as e:
             self.failed[g.name] = str(e)
             return None
@@ -558,12 +571,56 @@ def hoist_nested_calls(fnode, is_new_callee):
     """`x = f(helper(a))` -> `_h1 = helper(a); x = f(_h1)` for calls of new helpers nested in simple statements"""
     counter = [0]
 
+    def comp_to_loop(s):
+        """`T = [h(a) for a in IT]` / `return [...]` with a new multi-statement helper in the element -> accumulator loop"""
+        v = getattr(s, 'value', None)
+        if not isinstance(s, (ast.Assign, ast.Return)) or not isinstance(v, ast.ListComp) or len(v.generators) != 1 or v.generators[0].ifs:
+            return None
+        if not any(isinstance(n, ast.Call) and is_new_callee(n) for n in ast.walk(v.elt)):
+            return None
+        counter[0] += 1
+        acc = '_acc%d' % counter[0]
+        g = v.generators[0]
+        init = ast.Assign(targets=[ast.Name(id=acc, ctx=ast.Store())], value=ast.List(elts=[], ctx=ast.Load()))
+        app = ast.Expr(value=ast.Call(func=ast.Attribute(value=ast.Name(id=acc, ctx=ast.Load()), attr='append', ctx=ast.Load()), args=[v.elt], keywords=[]))
+        loop = ast.For(target=g.target, iter=g.iter, body=[app], orelse=[])
+        if isinstance(s, ast.Return):
+            last = ast.Return(value=ast.Name(id=acc, ctx=ast.Load()))
+        else:
+            last = ast.Assign(targets=s.targets, value=ast.Name(id=acc, ctx=ast.Load()))
+        out = [init, loop, last]
+        for st in out:
+            ast.copy_location(st, s)
+            ast.fix_missing_locations(st)
+        return out
+
     def do_block(blk):
         i = 0
         while i < len(blk):
             s = blk[i]
+            rep = comp_to_loop(s)
+            if rep is not None:
+                blk[i:i + 1] = rep
+                continue
+            # the expression evaluated once when the statement is reached
+            slot = None
             if isinstance(s, (ast.Assign, ast.AugAssign, ast.Return, ast.Expr, ast.AnnAssign)) and getattr(s, 'value', None) is not None:
-                top = s.value
+                slot = 'value'
+            elif isinstance(s, ast.For):
+                slot = 'iter'
+            elif isinstance(s, ast.If):
+                slot = 'test'
+            if slot is not None:
+                top = getattr(s, slot)
+                if slot != 'value' and isinstance(top, ast.Call) and is_new_callee(top) and not _conditional_in(top, top):
+                    counter[0] += 1
+                    nm0 = '_h%d_%s' % (counter[0], (top.func.id if isinstance(top.func, ast.Name) else top.func.attr).strip('_'))
+                    st0 = ast.copy_location(ast.Assign(targets=[ast.Name(id=nm0, ctx=ast.Store())], value=top), s)
+                    ast.fix_missing_locations(st0)
+                    setattr(s, slot, ast.copy_location(ast.Name(id=nm0, ctx=ast.Load()), top))
+                    blk[i:i] = [st0]
+                    i += 1
+                    top = getattr(s, slot)
                 pre = []
                 for n in list(ast.walk(top)):
                     if n is top or not isinstance(n, ast.Call) or not is_new_callee(n):
@@ -586,7 +643,7 @@ def hoist_nested_calls(fnode, is_new_callee):
                                 return ast.copy_location(ast.Name(id=repl[id(c)], ctx=ast.Load()), c)
                             self.generic_visit(c)
                             return c
-                    s.value = R().visit(s.value)
+                    setattr(s, slot, R().visit(getattr(s, slot)))
                     for st in new_stmts:
                         ast.fix_missing_locations(st)
                     blk[i:i] = new_stmts
@@ -630,8 +687,8 @@ def _conditional_in(top, node):
 
 
 def _defs_to_lambdas(tree, new):
-    """a new nested helper whose body is a single `return E` and which is only passed around as a value
-    (map(helper, xs), key=helper) is put back as the lambda it stands for"""
+    """a new nested helper whose body is a single `return E` is put back as `name = lambda ...: E` (the form a def
+    replaces); calls through the name are then beta-reduced by the expander like any other lambda value"""
     n_done = 0
     for q, (g, gcls, gparent) in list(new.items()):
         if gparent is None:
@@ -641,31 +698,29 @@ def _defs_to_lambdas(tree, new):
             continue
         if g.args.vararg or g.args.kwarg:
             continue
-        uses = [n for n in _walk_scope_stmt(gparent) if isinstance(n, ast.Name) and n.id == g.name and isinstance(n.ctx, ast.Load)]
-        if not uses:
-            continue
         lam_args = copy.deepcopy(g.args)
         for a in lam_args.posonlyargs + lam_args.args + lam_args.kwonlyargs:
             a.annotation = None
+        assign = ast.copy_location(ast.Assign(targets=[ast.Name(id=g.name, ctx=ast.Store())],
+                                              value=ast.Lambda(args=lam_args, body=copy.deepcopy(body[0].value))), g)
 
-        class R(ast.NodeTransformer):
-            def visit_Name(self, n):
-                if n.id == g.name and isinstance(n.ctx, ast.Load):
-                    return ast.copy_location(ast.Lambda(args=copy.deepcopy(lam_args), body=copy.deepcopy(body[0].value)), n)
-                return n
-
-            def visit_FunctionDef(self, n):
-                if n is g:
-                    return None
-                self.generic_visit(n)
-                return n
-        for field in ('body',):
-            newbody = []
-            for st in gparent.body:
-                r = R().visit(st)
-                if r is not None:
-                    newbody.append(r)
-            gparent.body = newbody or [ast.Pass()]
+        def replace_in(blk):
+            for i, st in enumerate(blk):
+                if st is g:
+                    blk[i] = assign
+                    return True
+                for field in ('body', 'orelse', 'finalbody'):
+                    sub = getattr(st, field, None)
+                    if isinstance(sub, list) and sub and isinstance(sub[0], ast.stmt) and not isinstance(st, (ast.FunctionDef, ast.AsyncFunctionDef, ast.ClassDef)):
+                        if replace_in(sub):
+                            return True
+                for h in getattr(st, 'handlers', []) or []:
+                    if replace_in(h.body):
+                        return True
+            return False
+        if not replace_in(gparent.body):
+            continue
+        ast.fix_missing_locations(assign)
         n_done += 1
     return n_done
 
@@ -675,10 +730,18 @@ def _const_sequence(node, module_consts):
     if isinstance(node, ast.Name) and node.id in module_consts:
         node = module_consts[node.id]
     if isinstance(node, (ast.Tuple, ast.List)) and 1 <= len(node.elts) <= 8 and all(isinstance(e, ast.Constant) for e in node.elts):
-        return [e.value for e in node.elts]
+        return [ast.Constant(value=e.value) for e in node.elts]
+    if isinstance(node, (ast.Tuple, ast.List)) and 1 <= len(node.elts) <= 12 and all(_is_global_ref(e) for e in node.elts):
+        return [copy.deepcopy(e) for e in node.elts]          # a tuple of classes / functions
     if isinstance(node, ast.Constant) and isinstance(node.value, str) and 1 <= len(node.value) <= 8:
-        return list(node.value)
+        return [ast.Constant(value=c) for c in node.value]
     return None
+
+
+def _is_global_ref(e):
+    while isinstance(e, ast.Attribute):
+        e = e.value
+    return isinstance(e, ast.Name)
 
 
 def unroll_constant_loops(tree):
@@ -693,10 +756,23 @@ def unroll_constant_loops(tree):
     consts = {k: v for k, v in consts.items() if counts[k] == 1}
     n_done = [0]
 
-    def do_block(blk):
+    def local_consts(fnode):
+        cnt, val = {}, {}
+        for n in _walk_scope_stmt(fnode):
+            if isinstance(n, ast.Name) and isinstance(n.ctx, ast.Store):
+                cnt[n.id] = cnt.get(n.id, 0) + 1
+            if isinstance(n, ast.Assign) and len(n.targets) == 1 and isinstance(n.targets[0], ast.Name) and isinstance(n.value, (ast.Tuple, ast.List)):
+                val[n.targets[0].id] = n.value
+        return {k: v for k, v in val.items() if cnt.get(k) == 1}
+
+    def do_block(blk, consts=consts):
         i = 0
         while i < len(blk):
             st = blk[i]
+            if isinstance(st, (ast.FunctionDef, ast.AsyncFunctionDef)):
+                do_block(st.body, dict(consts, **local_consts(st)))
+                i += 1
+                continue
             if isinstance(st, ast.For) and isinstance(st.target, ast.Name) and not st.orelse:
                 seq = _const_sequence(st.iter, consts)
                 v = st.target.id
@@ -707,7 +783,7 @@ def unroll_constant_loops(tree):
                         class R(ast.NodeTransformer):
                             def visit_Name(self, n):
                                 if n.id == v and isinstance(n.ctx, ast.Load):
-                                    return ast.copy_location(ast.Constant(value=val), n)
+                                    return ast.copy_location(copy.deepcopy(val), n)
                                 return n
                         for b in st.body:
                             rep.append(R().visit(copy.deepcopy(b)))
@@ -717,9 +793,9 @@ def unroll_constant_loops(tree):
             for field in ('body', 'orelse', 'finalbody'):
                 sub = getattr(st, field, None)
                 if isinstance(sub, list) and sub and isinstance(sub[0], ast.stmt):
-                    do_block(sub)
+                    do_block(sub, consts)
             for h in getattr(st, 'handlers', []) or []:
-                do_block(h.body)
+                do_block(h.body, consts)
             i += 1
     do_block(tree.body)
     return n_done[0]
@@ -821,13 +897,51 @@ def apply(prog):
         ast.fix_missing_locations(m.tree)
 
 
+# ------------------------------------------------------------------------------------------------ spelling variants
+class _Spelling(ast.NodeTransformer):
+    """`X.shape[0]` -> `len(X)`;  `(a == b).any()` / `.all()` on a comparison or boolean combination -> numpy.any / numpy.all"""
+    def __init__(self, numpy_name):
+        self.np = numpy_name
+        self.count = 0
+
+    def visit_Subscript(self, n):
+        self.generic_visit(n)
+        if isinstance(n.ctx, ast.Load) and isinstance(n.value, ast.Attribute) and n.value.attr == 'shape' \
+                and isinstance(n.slice, ast.Constant) and n.slice.value == 0 and not isinstance(n.slice.value, bool):
+            self.count += 1
+            return ast.copy_location(ast.Call(func=ast.Name(id='len', ctx=ast.Load()), args=[n.value.value], keywords=[]), n)
+        return n
+
+    def visit_Call(self, n):
+        self.generic_visit(n)
+        if self.np and isinstance(n.func, ast.Attribute) and n.func.attr in ('any', 'all') and not n.args and not n.keywords \
+                and isinstance(n.func.value, (ast.Compare, ast.BoolOp, ast.BinOp, ast.UnaryOp)):
+            self.count += 1
+            return ast.copy_location(ast.Call(func=ast.Attribute(value=ast.Name(id=self.np, ctx=ast.Load()), attr=n.func.attr, ctx=ast.Load()),
+                                              args=[n.func.value], keywords=[]), n)
+        return n
+
+
+def spelling(prog):
+    n = 0
+    for m in prog.modules.values():
+        np_name = next((k for k, v in m.imports.items() if v == 'numpy'), None)
+        if 'len' in m.toplevel:
+            continue
+        t = _Spelling(np_name)
+        m.tree = t.visit(m.tree)
+        n += t.count
+        ast.fix_missing_locations(m.tree)
+    prog.normalization['spelling_variants'] = n
+
+
 # ------------------------------------------------------------------------------------------------ call arguments
 EXTERNAL_SIGNATURES = {
     'numpy.loadtxt': ['fname'], 'numpy.genfromtxt': ['fname'],
     'datetime.datetime': ['year', 'month', 'day', 'hour', 'minute', 'second', 'microsecond', 'tzinfo'],
     'datetime.datetime.fromtimestamp': ['timestamp', 'tz'],
     'datetime.datetime.strptime': ['date_string', 'format'],
-    'json.dump': ['obj', 'fp'], 'json.load': ['fp'],
+    'json.dump': ['obj', 'fp'], 'json.load': ['fp'], 'builtins.open': ['file', 'mode'],
     'numpy.linspace': ['start', 'stop', 'num'], 'numpy.searchsorted': ['a', 'v', 'side'],
     'numpy.round': ['a', 'decimals'], 'numpy.sum': ['a'], 'numpy.cumsum': ['a'],
     'numpy.unique': ['ar'], 'numpy.sort': ['a'], 'numpy.argsort': ['a'], 'numpy.add.at': ['a', 'indices', 'b'],
